@@ -89,6 +89,9 @@ type Run struct {
 	// output; it returns true when it turned the failure into a verdict (otherwise the failure is inconclusive).
 	OnChildFailure func(progress string, output string) bool
 
+	// ChildBinary, if set, is executed by SpawnChildren instead of this binary (e.g. a -race build of the same check).
+	ChildBinary string
+
 	// child-process mode (see children.go)
 	childIdx, childN int
 	isChild          bool
